@@ -172,7 +172,14 @@ class NameResolutionMixin(MetadataDependent):
         """
         scope = self.get_metadata(ScopeProvider, node)
         if node in scope.accesses:
-            return set(next(iter(scope.accesses[node])).referents)
+            # `scope.accesses[node]` holds every access with the same name as
+            # `node`; taking an arbitrary one made the answer depend on set
+            # (memory address) order. Use the access that belongs to `node`.
+            accesses = scope.accesses[node]
+            for access in accesses:
+                if access.node is node:
+                    return set(access.referents)
+            return set(next(iter(accesses)).referents)
         return set()
 
     def generate_available_name(self, node, preference: list[str]) -> str:
